@@ -82,10 +82,14 @@ def an_rule(w):
                 or re.fullmatch(r"[A-Z]+", w))
 
 
-def vm(w, h):
-    """begins with a vowel or a mute h (h = the lexicon's answer: "a" aspirated)"""
+LIGATURES = "œæ"     # vowels too: the code relies on Terminal.setLemma expanding them (œ -> oe) before elision
+
+
+def vm(w, h, lig=False):
+    """begins with a vowel or a mute h (h = the lexicon's answer: "a" aspirated).  `lig`: œ/æ count as vowels (the
+    property on the TEXT); without it the class is the one isElidableFr tests (comparison with the model)"""
     c = w[:1].lower()
-    return c in VOW and c != "" or (c == "h" and h == "m")
+    return c != "" and (c in VOW or (lig and c in LIGATURES)) or (c == "h" and h == "m")
 
 
 def view(r):
@@ -101,7 +105,7 @@ def no_words(rest):
     return not re.match(r"\s*\w", rest)
 
 
-def pair_clauses(lang, t1, t2, w1_override=None):
+def pair_clauses(lang, t1, t2, w1_override=None, lig=False):
     """clauses of the property violated by two adjacent tokens (token facts); mirrors Lean pairOKFr / pairOKEn"""
     v1, v2 = view(t1["r"]), view(t2["r"])
     if v1 is None or v2 is None:
@@ -121,7 +125,7 @@ def pair_clauses(lang, t1, t2, w1_override=None):
     if w1_override is None and not no_words(v1[2]):
         return []
     fr2 = t2.get("fr", True)
-    V = vm(w2, t2["hw"])
+    V = vm(w2, t2["hw"], lig)
     l1 = w1.lower()
     if l1 in ELIDABLE and V:
         bad.append("F1")
@@ -154,7 +158,7 @@ def words_of(r):
     return re.findall(r"[\w'-]+", re.sub(r"<[^>]+>", " ", r)) if isinstance(r, str) else []
 
 
-def text_violations(lang, toks, before=None):
+def text_violations(lang, toks, before=None, lig=True):
     """the property on the TEXT: empty tokens dropped, the LAST word of a multi-word lexicon lexeme is the word that
     meets the next token.  Returns [(signature, detail)].  `before`: the input tokens of the same call when known."""
     idx = [i for i, t in enumerate(toks) if t["r"] != ""]
@@ -174,7 +178,7 @@ def text_violations(lang, toks, before=None):
                 continue
             over = ws[-1]
             ctx = "multiword-lexeme"
-        cl = [c for c in pair_clauses(lang, t1, t2, over) if c in FLAGGED]
+        cl = [c for c in pair_clauses(lang, t1, t2, over, lig) if c in FLAGGED]
         if not cl:
             continue
         if ctx is None:
@@ -182,7 +186,10 @@ def text_violations(lang, toks, before=None):
             prev = view(toks[idx[k - 1]]["r"]) if k > 0 else None
             pw = prev[1] if prev else ""
             w2v = (view(t2["r"]) or ("", "", ""))[1]
-            if j != i + 1:
+            if lang == "fr" and w2v[:1] in ("Œ", "Æ") and set(cl) <= {"F1", "F4"}:
+                # setLemma expands œ/æ but not the capitals Œ/Æ, which the vowel test of isElidableFr does not know
+                ctx = "capital-ligature"
+            elif j != i + 1:
                 ctx = "across-emptied-token"
             elif cl == ["F2"] and t1["ct"] == "Pro" and v1 and (v1[0] != "" or v1[2].strip() != ""):
                 # an already elided clitic that carries a tag / punctuation: the `elided` guard of doPronounPlacement
@@ -237,7 +244,7 @@ def set_lang(lang):
     (ns["loadFr"] if lang == "fr" else ns["loadEn"])()
 
 
-FALLBACK_NON_ASCII = "\u00a0«»ÀÂÄÇÈÉÊËÎÏÑÔÖÙÛÜàâäçèéêëîïñôöùûüŒœ–—’…"
+FALLBACK_NON_ASCII = "\u00a0«»ÀÂÄÆÇÈÉÊËÎÏÑÔÖÙÛÜàâäæçèéêëîïñôöùûüŒœ–—’…"
 
 
 def alphabet():
@@ -536,7 +543,7 @@ def oracle_call(ctx, kind, lang, facts, ans, inp):
     if not clean_line(facts, kind == "elide") or stale_input(lang, facts):
         return
     out = after_facts(facts, ans)
-    for sig, det in text_violations(lang, out, facts):
+    for sig, det in text_violations(lang, out, facts, lig=(kind != "elide")):
         ctx.fail(sig, inp, "%s: %s -> %s ; %s" % (kind, [f["r"] for f in facts], ans["r"], det))
 
 
@@ -579,7 +586,7 @@ def resolve_first():
 
 def expected_pair(f, sg, form, h):
     """the rule restated: the text of `f` followed by `form` (h = lexicon flag of form's lemma/pos)"""
-    V = vm(form, h)
+    V = vm(form, h, True)
     if f in ELIDABLE and V:
         return f[:-1] + "'" + form
     if f in EUPH and sg and V:
@@ -611,13 +618,15 @@ DECORS = ['.tag("i").tag("b")', '.tag("a",{"href":"x"}).tag("em")', '.b("(").tag
 def decorated(ns, src, form, idx, every):
     """[(decor, source, realization alone)] : the plain form, and for every `every`-th form its decorated variants"""
     out = [("", src, form)]
-    if idx % every == 0:
+    if src.startswith('"'):
+        return out          # a bare string child cannot carry options
+    if idx % every == 0 or "œ" in src.lower() or "æ" in src.lower():
         for d in DECORS:
             try:
                 r = eval(src + d, ns).realize()
             except Exception:  # noqa
                 continue
-            if r.endswith(">") or form in r:
+            if r.endswith(">") or (form or "") in r:
                 out.append((d, src + d, r))
     return out
 
@@ -642,7 +651,11 @@ def sweep_fr_chunk(args):
             continue
         c.keep_calls = False
         try:
-            if eval(xcode, ns).realize() != form:
+            alone = eval(xcode, ns)
+            alone = (ns["Q"](alone) if isinstance(alone, str) else alone).realize()
+            if form is None:
+                form = alone     # quoted text: what it realizes as is the question (œ -> oe or not)
+            if alone != form:
                 continue        # the map's key is not what this terminal realizes alone (ambiguous entry)
         except Exception:  # noqa
             continue
@@ -665,13 +678,14 @@ def sweep_fr_chunk(args):
             if txt != w + " " + dreal:
                 nontriv += 1
             if txt != exp:
-                V = vm(form, h)
+                V = vm(form, h, True)
+                kind_ = "capital-ligature" if form[:1] in ("Œ", "Æ") else "plain"
                 if txt.startswith("EXC:"):
                     sig = "fr:crash:%s:sweep" % txt[4:]
                 elif w in ELIDABLE:
-                    sig = "fr:F1:plain" if V else "fr:F2:plain"
+                    sig = ("fr:F1:" + kind_) if V else "fr:F2:plain"
                 elif w in EUPH:
-                    sig = "fr:F4:plain" if V else "fr:F5:plain"
+                    sig = ("fr:F4:" + kind_) if V else "fr:F5:plain"
                 else:
                     sig = "fr:sweep:control-word-rewritten"
                 fails.append((sig, {"kind": "pair", "lang": "fr", "src": "PP(%s, %s)" % (fsrc, dsrc)},
@@ -730,7 +744,12 @@ def sweep_contr_chunk(args):
     fails, n, nontriv, calls = [], 0, 0, []
     for fidx, (form, src, lemma, pos) in enumerate(forms):
         h = lex_h(lex, lemma, pos)
-        V = vm(form, h)
+        if form is None:
+            try:
+                form = eval(src, ns).realize()
+            except Exception:  # noqa
+                continue
+        V = vm(form, h, True)
         for (decor, dsrc, dreal) in decorated(ns, src, form, fidx, decor_every):
           for p, contr_s, contr_p in (("à", "au", "aux"), ("de", "du", "des"), ("pour", None, None)):
             for num in ("s", "p"):
@@ -846,6 +865,18 @@ def quick_forms(rng, lang, per_class):
                     continue
                 if form and "[[" not in form and " " not in form:
                     res.append((form, src, lemma, pos))
+    return res
+
+
+LIG_WORDS = ["œuvre", "œufs", "œuf", "œil", "œdipe", "œsophage", "æschne", "ægosome"]
+
+
+def ligature_forms(capitals=True):
+    """quoted text / bare string children beginning with a ligature (form None: computed from the real library)"""
+    res = []
+    for w in LIG_WORDS + ([w.capitalize() for w in LIG_WORDS[:5]] + ["Æschne"] if capitals else []):
+        res.append((None, 'Q("%s")' % w, w, "Q"))
+        res.append((None, '"%s"' % w, w, "Q"))
     return res
 
 
@@ -1152,6 +1183,32 @@ def family_sentences():
             for k, o in enumerate(dobjs):
                 for t in typs[:2]:
                     L.append(("fr", 'root(V("%s"), %s, comp(V("%s").t("b"), %s))%s' % (g, dsubjs[(i + k) % len(dsubjs)], inf, o, t)))
+    # (iii) quoted text / bare strings beginning with a ligature after elidable, euphonic, contractable words
+    for w in LIG_WORDS + ["Œuvre", "Œdipe", "Æschne"]:
+        for q in ('Q("%s")' % w, '"%s"' % w, 'Q("%s").tag("i")' % w, 'Q("%s").b("(").tag("b")' % w):
+            L.append(("fr", 'NP(D("le"), %s)' % q))
+            L.append(("fr", 'NP(D("ce"), %s)' % q))
+            L.append(("fr", 'NP(D("mon").pe(1).g("f"), %s)' % q))
+            L.append(("fr", 'NP(D("le"), A("beau"), %s)' % q))
+            L.append(("fr", 'PP(P("de"), %s)' % q))
+            L.append(("fr", 'PP(P("à"), NP(D("le"), %s))' % q))
+            L.append(("fr", 'S(Pro("je").pe(1), VP(V("admirer"), NP(D("le"), %s))).typ({"neg": True})' % q))
+            L.append(("fr", 'S(Pro("je").pe(3), VP(V("dire"), SP(C("que"), %s, VP(V("partir")))))' % q))
+            if not q.startswith('"'):
+                L.append(("fr", 'root(V("manger"), subj(Pro("je").pe(3)), comp(%s, det(D("de"))))' % q))
+                L.append(("fr", 'root(V("admirer"), subj(Pro("je").pe(1)), comp(%s, det(D("le"))))' % q))
+    # (iv) transformations that insert function words (de, que, ne, se, en train de) before a vowel-initial verb
+    for v in ("aimer", "écouter", "ouvrir", "attendre", "habiter", "honorer", "haïr", "manger"):
+        for k, sj in enumerate(('Pro("je").pe(1)', 'Pro("je").pe(3)', 'NP(D("le"), N("enfant"))')):
+            for t in ('{"prog": True}', '{"prog": True, "neg": True}', '{"prog": True, "int": "yon"}', '{"mod": "poss", "neg": True}',
+                      '{"mod": "nece"}', '{"neg": True}', '{"refl": True}', '{"pas": True}', '{"prog": True, "mod": "perm"}'):
+                L.append(("fr", 'S(%s, VP(V("%s"), NP(D("le"), N("arbre")))).typ(%s)' % (sj, v, t)))
+                if k == 0:
+                    L.append(("fr", 'root(V("%s"), subj(%s), comp(N("arbre"), det(D("le")))).typ(%s)' % (v, sj, t)))
+    for n in ("apple", "hour", "user", "honest man", "European"):
+        for t in ('', '.typ({"prog": True})', '.typ({"neg": True, "contr": True})', '.typ({"pas": True})'):
+            nn = 'N("%s")' % n if " " not in n else 'A("honest"), N("man")'
+            L.append(("en", 'S(Pro("I").pe(3).g("m"), VP(V("love"), NP(D("a"), %s)))%s' % (nn, t)))
     d1, d2 = 'DT("2024-05-13T10:30:00")', 'DT("2024-05-17T08:00:00")'
     after = ['Adv("environ")', 'Adv("ici")', 'Adv("encore")', 'Adv("aussi")', 'A("exact")', 'Adv("hier")', 'Adv("heureusement")', 'Adv("demain")',
              'PP(P("à"),%s%%s)' % d2, 'PP(P("à"),NP(D("le"),N("aube")))', 'NP(D("un"),N("an"))']
@@ -1169,15 +1226,37 @@ def family_sentences():
 DETACHED = re.compile(r"(?<![\w'-])(?:[ldjmtsn]|qu|jusqu|lorsqu|puisqu|quoiqu)' ", re.I)
 
 
+TERMINALS = {"N", "A", "Pro", "D", "V", "Adv", "P", "C", "Q", "NO", "DT"}
+NONTERMINALS = {"S", "SP", "NP", "AP", "VP", "AdvP", "PP", "CP", "root", "subj", "det", "mod", "comp", "coord"}
+
+
+def with_lang(src, lang):
+    """the same expression with the language given explicitly to every constructor: N("x") -> N("x","fr"),
+    NP(…) -> NP(…, lang="fr")"""
+    tree = ast.parse(src, mode="eval")
+    for n in ast.walk(tree):
+        if isinstance(n, ast.Call) and isinstance(n.func, ast.Name):
+            if n.func.id in TERMINALS and len(n.args) == 1 and not n.keywords:
+                n.args.append(ast.Constant(lang))
+            elif n.func.id in NONTERMINALS and not any(k.arg == "lang" for k in n.keywords):
+                n.keywords.append(ast.keyword(arg="lang", value=ast.Constant(lang)))
+    return ast.unparse(ast.fix_missing_locations(tree))
+
+
 def realize_chunk(items):
-    """items: [(lang, setup, src)] -> [(lang, src, text|EXC, calls, texts)]"""
+    """items: [(lang, setup, src, mode)] -> [(lang, src, text|EXC, calls, texts, mode)].  mode "mono": built and
+    realized under `lang`; "cross": built under `lang`, realized while the OTHER language is current; "explicit": built
+    and realized under the other language, the language given explicitly to every constructor"""
     ns0 = P()["ns"]
     c = _W["cap"]
     c.keep_calls = True
     c.keep_texts = True
     res = []
     cache = _W.setdefault("ns_cache", {})
-    for lang, setup, src in items:
+    for item in items:
+        lang, setup, src = item[0], item[1], item[2]
+        mode = item[3] if len(item) > 3 else "mono"
+        other = "en" if lang == "fr" else "fr"
         set_lang(lang)
         ns = cache.get((lang, setup))
         if ns is None:
@@ -1188,14 +1267,19 @@ def realize_chunk(items):
                 except Exception:  # noqa
                     pass
             cache[(lang, setup)] = ns
-        set_lang(lang)
+        set_lang(other if mode == "explicit" else lang)
         c.clear()
         try:
-            txt = eval(src, ns).realize()
+            obj = eval(with_lang(src, lang) if mode == "explicit" else src, ns)
+            if mode == "cross":
+                set_lang(other)
+            c.clear()
+            txt = obj.realize()
         except Exception as e:  # noqa
             txt = "EXC:" + type(e).__name__
-        res.append((lang, src, txt, c.calls, c.texts))
+        res.append((lang, src, txt, c.calls, c.texts, mode))
         c.clear()
+    set_lang("fr")
     return res
 
 
@@ -1396,6 +1480,8 @@ def run(ctx, deep=False):
         sweep_forms = [f for f in qf if f[0][0].lower() in VOW + "h"]
         contr_forms = stratified(rng, qf, 4, lambda f: (f[3], f[0][0].lower(), lex_h(lexfr, f[2], f[3])))
         en_sweep = quick_forms(rng, "en", 3)
+    sweep_forms = ligature_forms() + sweep_forms
+    contr_forms = [f for f in ligature_forms(capitals=False) if f[1].startswith("Q(")] + contr_forms
     dist["sweep_fr_forms"] = len(sweep_forms)
     dist["sweep_en_forms"] = len(en_sweep)
     dist["sweep_contr_forms"] = len(contr_forms)
@@ -1409,6 +1495,14 @@ def run(ctx, deep=False):
         sent.append((lang, "", gen_sentence(rng, lang)))
     fam = family_sentences()
     sent.extend((lang, "", src) for (lang, src) in fam)
+    # the same sentences built under their language and realized while the other one is current, and with the language
+    # given explicitly to every constructor under the other one: same text, same Settled test
+    cross = [(lang, src) for (lang, src) in fam]
+    cross += [(lang, src) for (lang, setup, src) in sent[len(seeds):len(seeds) + (3000 if thorough else 700)] if not setup]
+    for (lang, src) in cross:
+        sent.append((lang, "", src, "cross"))
+        sent.append((lang, "", src, "explicit"))
+    dist["sentences_cross_language"] = 2 * len(cross)
     dist["sentences_families(nested infinitive, à/de + DT)"] = len(fam)
     dist["sentences_seed"] = len(seeds)
     dist["sentences_generated"] = n_gen
@@ -1446,9 +1540,26 @@ def run(ctx, deep=False):
     t2 = time.time()
     all_calls, n_exc, n_txt = [], 0, 0
     text_lines, text_meta = [], []
+    mono_text = {}
     for chunk in res_se:
-        for (lang, src, txt, calls, texts) in chunk:
+        for (lang, src, txt, calls, texts, mode) in chunk:
+            if mode == "mono":
+                mono_text[(lang, src)] = txt
+    for chunk in res_se:
+        for (lang, src, txt, calls, texts, mode) in chunk:
             inp = {"kind": "expr", "lang": lang, "src": src}
+            if mode != "mono":
+                inp["mode"] = mode + (": built under %s, realized while the other language is current" % lang if mode == "cross"
+                                      else ": language given to every constructor, the other language current")
+                # every token of these sentences is a word of `lang`, whatever language its terminal was given
+                for tx in texts:
+                    for f in tx["toks"]:
+                        f["fr"] = (lang == "fr")
+                want = mono_text.get((lang, src))
+                if want is not None and not want.startswith("EXC:") and not txt.startswith("EXC:") and txt != want:
+                    dist["cross_language_text_differs"] = dist.get("cross_language_text_differs", 0) + 1
+                    if len(ctx.notes.setdefault("cross_language_differences", [])) < 5:
+                        ctx.notes["cross_language_differences"].append({"src": src, "mode": mode, "mono": want, "got": txt})
             if txt.startswith("EXC:"):
                 n_exc += 1      # C07's business unless doElision raised (seen in the captured call)
             elif lang == "fr" and 'Q(' not in src and DETACHED.search(txt):
@@ -1513,9 +1624,14 @@ def replay(path):
             print(json.dumps({"captured_call": line, "note": "replay the sentence given in the detail"}, ensure_ascii=False))
         return 0
     lang, src = inp["lang"], inp["src"]
-    set_lang(lang)
+    mode = (inp.get("mode") or "mono").split(":")[0]
+    other = "en" if lang == "fr" else "fr"
+    set_lang(other if mode == "explicit" else lang)
     try:
-        txt = eval(src, dict(P()["ns"])).realize()
+        obj = eval(with_lang(src, lang) if mode == "explicit" else src, dict(P()["ns"]))
+        if mode == "cross":
+            set_lang(other)
+        txt = obj.realize()
     except Exception as e:  # noqa
         txt = "EXC:%s: %s" % (type(e).__name__, e)
     print(json.dumps({"lang": lang, "src": src, "realized": txt}, ensure_ascii=False))
